@@ -306,7 +306,9 @@ def waiter_guard(ctx: Ctx, rule: str, instance: str):
         t = u(env["T"])
         w = ctx.sites(deliver, f"$W = {t}._fut_waiter")
         wn = u(w[0][1]["W"]) if w else f"{t}._fut_waiter"
-        ctx.require_at(rule, deliver, call, [[f"not isinstance({wn}, asyncio.Future)"], [f"not {wn}.done()"]],
+        full = f"{t}._fut_waiter"      # (a temporary for the waiter is resolved to the attribute by the alias canonicalisation)
+        ctx.require_at(rule, deliver, call, [[f"not isinstance({wn}, asyncio.Future)"], [f"not {wn}.done()"],
+                                             [f"not isinstance({full}, asyncio.Future)"], [f"not {full}.done()"]],
                        instance=instance, what="task.cancel")
 
 
@@ -433,3 +435,80 @@ def resolve_value(fn, e, within=None):
             if a in pa.body and b in pa.orelse and len(pa.body) == 1 and len(pa.orelse) == 1:
                 return ast.IfExp(test=pa.test, body=a.value, orelse=b.value)
     return e
+
+
+def eval_under(e, assign):
+    """value of a boolean expression under a total assignment {canonical atom key: bool}; None if it mentions anything else"""
+    from sa.engine.facts import atom
+    if isinstance(e, ast.Constant) and isinstance(e.value, bool):
+        return e.value
+    if isinstance(e, ast.BoolOp):
+        vals = [eval_under(v, assign) for v in e.values]
+        if isinstance(e.op, ast.And):
+            # short-circuit: a False conjunct decides even if a later operand is not evaluable
+            for v in vals:
+                if v is False:
+                    return False
+                if v is None:
+                    return None
+            return True
+        for v in vals:
+            if v is True:
+                return True
+            if v is None:
+                return None
+        return False
+    if isinstance(e, ast.UnaryOp) and isinstance(e.op, ast.Not):
+        v = eval_under(e.operand, assign)
+        return None if v is None else (not v)
+    if isinstance(e, ast.IfExp):
+        t = eval_under(e.test, assign)
+        return None if t is None else eval_under(e.body if t else e.orelse, assign)
+    k, pol = atom(e)
+    if k in assign:
+        return assign[k] == pol
+    return None
+
+
+def truth_table(ctx, rule, f, atoms, expected, what, by=()):
+    """the function is a pure predicate over the given atoms: on every path to every `return`, under every valuation of the atoms that
+    is consistent with the facts of that path, the returned expression has the value `expected(valuation)`.
+    atoms: {name: [source texts of equivalent spellings]}; expected gets {name: bool}.  Shape-agnostic: one conjunction, guard clauses
+    with early returns, nested ifs and conditional expressions all evaluate to the same table."""
+    import itertools
+    from sa.engine.facts import F
+    keys = {}
+    for name, spell in atoms.items():
+        for t in spell:
+            k, pol = F(t)
+            keys[k] = (name, pol)
+    rets = [n for n in own_walk(f.node) if isinstance(n, ast.Return)]
+    bad = []
+    nrows = 0
+    for r in rets:
+        fa = ctx.facts_at(f, r)
+        if not fa:
+            continue        # unreachable return
+        for facts in fa:
+            fixed = {}
+            for k, p in facts:
+                if k in keys:
+                    name, pol = keys[k]
+                    fixed[name] = (p == pol)
+            free = [n for n in atoms if n not in fixed]
+            for combo in itertools.product((True, False), repeat=len(free)):
+                val = dict(fixed)
+                val.update(zip(free, combo))
+                assign = {k: (val[name] == pol) for k, (name, pol) in keys.items()}
+                got = eval_under(r.value, assign) if r.value is not None else False
+                want = expected(val)
+                nrows += 1
+                if got is None:
+                    bad.append((r, f"`{norm(r)}` is not a function of {sorted(atoms)} alone"))
+                elif want is not None and got != want:
+                    bad.append((r, f"`{norm(r)}` yields {got} for {val}; required {want}"))
+    ok = bool(rets) and not bad and nrows > 0
+    node = bad[0][0] if bad else None
+    ctx.ob(rule, f, what, ok, node=node, detail="" if ok else ("; ".join(sorted({m for _, m in bad}))[:600] or "no return statement"),
+           by=by or (f"{nrows} rows over {len(rets)} return(s)",))
+    return ok
